@@ -636,6 +636,81 @@ func init() {
 		}
 		sb.WriteString("def trieBlockSizes : List String := " + LeanStrList([]string{flushBlock, mergeBlock}) + "\n\n")
 
+		// ---- indexKVStore.Flush: is the bucket cache purged inside the locked section after flusher.Close()
+		{
+			evs := flushEvents(FindFunc(ks, "indexKVStore", "Flush"))
+			idx := func(name string) int {
+				for i, e := range evs {
+					if e == name {
+						return i
+					}
+				}
+				return -1
+			}
+			cl, lk, pg, st := idx("call:flusher.Close"), idx("call:lock.Lock"), idx("call:bucketCache.Purge"), idx("set:immutable=nil")
+			n := 0
+			for _, e := range evs {
+				if e == "call:bucketCache.Purge" {
+					n++
+				}
+			}
+			sb.WriteString("/-- Purge() runs once, after flusher.Close(), inside the write-locked section that swaps the snapshot -/\n")
+			sb.WriteString("def cachePurgeAtSwap : Bool := " + c10Bool(n == 1 && cl >= 0 && lk > cl && pg > lk && st > lk) + "\n")
+		}
+		// ---- FindValuesByExpr: which lookup each filter kind is answered by
+		{
+			fdx := FindFunc(ks, "indexKVStore", "FindValuesByExpr")
+			_, tsx := c10TypeSwitchCases(fs3, fdx)
+			var disp []string
+			if tsx != nil {
+				for _, st := range tsx.Body.List {
+					cc := st.(*ast.CaseClause)
+					label := "default"
+					if cc.List != nil {
+						label = c10Src(fs3, cc.List[0])
+					}
+					var calls []string
+					for _, b := range cc.Body {
+						ast.Inspect(b, func(n ast.Node) bool {
+							if c, ok := n.(*ast.CallExpr); ok {
+								nm := exprName(c.Fun)
+								if strings.HasPrefix(nm, "s.") || nm == "regexpCompile" {
+									calls = append(calls, nm)
+								}
+							}
+							return true
+						})
+					}
+					disp = append(disp, label+" -> "+strings.Join(calls, ","))
+				}
+			}
+			sb.WriteString("def resolveDispatch : List String := " + LeanStrList(disp) + "\n")
+		}
+		// ---- TrieBucket.Write: how the merge of small tries pairs keys and ids
+		{
+			wf := FindFunc(tb, "TrieBucket", "Write")
+			if wf == nil {
+				return "", fmt.Errorf("TrieBucket.Write not found")
+			}
+			var pair []string
+			ast.Inspect(wf.Body, func(n ast.Node) bool {
+				switch x := n.(type) {
+				case *ast.AssignStmt:
+					if len(x.Lhs) == 1 {
+						if id, ok := x.Lhs[0].(*ast.Ident); ok && (id.Name == "keys" || id.Name == "ids" || id.Name == "itr") {
+							pair = append(pair, c10Src(fs4, x))
+						}
+					}
+				case *ast.ExprStmt:
+					if c, ok := x.X.(*ast.CallExpr); ok && exprName(c.Fun) == "itr.Next" {
+						pair = append(pair, "itr.Next()")
+					}
+				}
+				return true
+			})
+			sb.WriteString("def trieMergePairing : List String := " + LeanStrList(pair) + "\n\n")
+		}
+
 		// ---- Rewrite() formats
 		_, ex, err := ParseFile(repo, "sql/stmt/expr.go")
 		if err != nil {
